@@ -51,7 +51,8 @@ def rExpr (sc : SScope) : Expr → Bool
   | .list es => rExprs sc es
   | .map ks vs => rExprs sc ks && rExprs sc vs
   | .lambda pos rest post optNames optDefaults body =>
-    rExprs sc optDefaults &&
+    -- every option has a default value (`&opt=default`)
+    optNames.length == optDefaults.length && rExprs sc optDefaults &&
       (rChunk ((pos ++ rest.toList ++ post ++ optNames).reverse :: sc) body)
   | .capture c => rChunkNoDecl sc c
   | .excCapture c => rChunkNoDecl sc c
@@ -162,7 +163,7 @@ def rForm (sc : SScope) (decl : Bool) : Form → Option SScope
       let sc' := sc.declare (name ++ "~")
       match lam with
       | .lambda pos rest post optNames optDefaults body =>
-        if rExprs sc' optDefaults &&
+        if optNames.length == optDefaults.length && rExprs sc' optDefaults &&
             rChunk ((pos ++ rest.toList ++ post ++ optNames).reverse :: sc') body then some sc' else none
       | _ => none
     else none
